@@ -11,6 +11,7 @@ import (
 	"sort"
 	"strings"
 
+	"github.com/refraction-networking/uquic/internal/verifmc/explore"
 	"github.com/refraction-networking/uquic/internal/verifmc/sim"
 )
 
@@ -34,7 +35,7 @@ type c18Msg struct {
 	RespBody  int `json:"rb,omitempty"` // as ReqBody
 	RespChunk int `json:"rc,omitempty"` // 0 one write, 1 two uneven, 2 byte-wise head + rest, 3 two uneven with Flush in between
 	RespCL    int `json:"rl,omitempty"` // 0 absent, 1 correct, 2 too small, 3 too large
-	RespTr    int `json:"rt,omitempty"` // 0 none, 1 declared ("Trailer" header), 2 undeclared (http.TrailerPrefix), 3 declared together with a forbidden trailer name
+	RespTr    int `json:"rt,omitempty"` // 0 none, 1 declared ("Trailer" header), 2 undeclared (http.TrailerPrefix), 3 declared together with a forbidden trailer name; >= 4: declared, one spelling of the announcement x one way of setting the values (c18TrSpell; enumerated by the part trailer-spell only, the lattice stops at 3)
 	Gzip      int `json:"z,omitempty"`  // 0 Transport.DisableCompression, 1 transparent gzip (handler compresses)
 	Conc      int `json:"n,omitempty"`  // 0 one request, 1 four concurrent requests on one connection
 	SLog      int `json:"sl,omitempty"` // 0 Server.Logger nil, 1 set
@@ -56,6 +57,9 @@ func (m c18Msg) String() string {
 	for i, p := range m.dims() {
 		if *p != 0 {
 			parts = append(parts, fmt.Sprintf("%s=%d", c18DimNames[i], *p))
+			if p == &m.RespTr && m.RespTr >= c18TrSpellBase {
+				parts[len(parts)-1] += "[" + c18TrSpellOf(m.RespTr).String() + "]"
+			}
 		}
 	}
 	if len(parts) == 0 {
@@ -251,8 +255,93 @@ func c18ReqTrailer(m c18Msg, idx int) http.Header {
 	return http.Header{"X-Qtr-A": {fmt.Sprintf("qa%d", idx)}, "X-Qtr-B": {fmt.Sprintf("qb%d", idx), "qb-second"}}
 }
 
+// ---- spellings of the handler's trailer announcement -----------------------------------------
+
+// c18TrSpell is one way a handler can announce the three trailers X-Rtr-A, X-Rtr-B, X-Rtr-C in
+// the "Trailer" field of its header map and then set their values. Every one of them is a
+// declared trailer in net/http's sense (the Trailer field value is a comma-separated list with
+// optional whitespace around the commas, field names are case-insensitive, Header.Set / Add
+// canonicalise the key they are given): the client must find all three in Response.Trailer
+// with the values the handler set last, and none of them in Response.Header.
+type c18TrSpell struct {
+	Layout int // 0 one name per Trailer value, 1 one value "a, b, c", 2 one value "a,b,c", 3 one value "a , b ,  c"
+	Case   int // spelling of the names inside the Trailer value(s): 0 canonical, 1 lower case, 2 mixed case
+	Set    int // 0 Header().Set/Add with the canonical name after the body; 1 with the lower-case name, and B and C already hold another value when the header is written; 2 with the mixed-case name after the body
+}
+
+const c18TrSpellBase = 4
+
+var c18TrNames = []string{"X-Rtr-A", "X-Rtr-B", "X-Rtr-C"}
+var c18TrLayoutNames = []string{"one-per-value", "comma-space", "comma", "space-comma-spaces"}
+var c18TrCaseNames = []string{"canonical", "lower", "mixed"}
+var c18TrSetNames = []string{"set-canonical", "set-lower+early-value", "set-mixed"}
+
+func c18TrSpellCount() int { return len(c18TrLayoutNames) * len(c18TrCaseNames) * len(c18TrSetNames) }
+
+func c18TrSpellOf(respTr int) c18TrSpell {
+	i := respTr - c18TrSpellBase
+	explore.Must(i >= 0 && i < c18TrSpellCount(), "c18: no trailer spelling %d", respTr)
+	return c18TrSpell{Layout: i / 9, Case: i / 3 % 3, Set: i % 3}
+}
+
+func c18TrCase(name string, cs int) string {
+	switch cs {
+	case 1:
+		return strings.ToLower(name)
+	case 2:
+		b := []byte(strings.ToLower(name))
+		for i := 1; i < len(b); i += 2 {
+			if b[i] >= 'a' && b[i] <= 'z' {
+				b[i] -= 'a' - 'A'
+			}
+		}
+		return string(b)
+	}
+	return name
+}
+
+// announce returns the values of the Trailer field.
+func (sp c18TrSpell) announce() []string {
+	var names []string
+	for _, n := range c18TrNames {
+		names = append(names, c18TrCase(n, sp.Case))
+	}
+	switch sp.Layout {
+	case 1:
+		return []string{strings.Join(names, ", ")}
+	case 2:
+		return []string{strings.Join(names, ",")}
+	case 3:
+		return []string{names[0] + " , " + names[1] + " ,  " + names[2]}
+	}
+	return names
+}
+
+// setKey is the name the handler passes to Header().Set / Add.
+func (sp c18TrSpell) setKey(name string) string { return c18TrCase(name, sp.Set) }
+
+func (sp c18TrSpell) String() string {
+	return fmt.Sprintf("Trailer: %q %s", sp.announce(), c18TrSetNames[sp.Set])
+}
+
+// keyClass names the input class in a violation key.
+func (sp c18TrSpell) keyClass() string {
+	return fmt.Sprintf("announced=%s/%s:%s", c18TrLayoutNames[sp.Layout], c18TrCaseNames[sp.Case], c18TrSetNames[sp.Set])
+}
+
+// c18RespTrKey extends a violation key by the spelling class (nothing for the lattice values).
+func c18RespTrKey(m c18Msg) string {
+	if m.RespTr >= c18TrSpellBase {
+		return ":" + c18TrSpellOf(m.RespTr).keyClass()
+	}
+	return ""
+}
+
 // c18RespTrailer is what the client must find in Response.Trailer after the body.
 func c18RespTrailer(m c18Msg, idx int) http.Header {
+	if m.RespTr >= c18TrSpellBase {
+		return http.Header{"X-Rtr-A": {fmt.Sprintf("ra%d", idx)}, "X-Rtr-B": {fmt.Sprintf("rb%d", idx), "rb-second"}, "X-Rtr-C": {fmt.Sprintf("rc%d", idx)}}
+	}
 	switch m.RespTr {
 	case 1:
 		return http.Header{"X-Rtr-A": {fmt.Sprintf("ra%d", idx)}, "X-Rtr-B": {fmt.Sprintf("rb%d", idx), "rb-second"}}
